@@ -807,15 +807,19 @@ class ModelicaParserErrorListener(antlr4.error.ErrorListener.ErrorListener):
 
 def _parse(text: str) -> Union[ast.Tree, None]:
     """Parse Modelica code given in text"""
-    input_stream = antlr4.InputStream(text)
+    # The lexer's line comment rule needs a terminating newline, and a leading
+    # byte order mark is not part of the Modelica text
+    input_stream = antlr4.InputStream(text.lstrip("\ufeff") + "\n")
     lexer = ModelicaLexer(input_stream)
     stream = antlr4.CommonTokenStream(lexer)
     parser = ModelicaParser(stream)
     # parser.buildParseTrees = False
     listener = ModelicaParserErrorListener()
+    lexer.addErrorListener(listener)
     parser.addErrorListener(listener)
     parse_tree = parser.stored_definition()
-    if listener.error:
+    # N.B. The stored_definition rule does not end with EOF, so check that all input was used
+    if listener.error or stream.LA(1) != antlr4.Token.EOF:
         return None
     ast_listener = ASTListener()
     parse_walker = antlr4.ParseTreeWalker()
